@@ -87,28 +87,40 @@ func c19Check(env *core.Env, cc core.Case) core.Verdict {
 	if err := tree.Write(root); err != nil {
 		return core.Incon("cannot write tree: %v", err)
 	}
-	for _, in := range invs {
-		args := append([]string{"-d", root}, in.args...)
-		r := sut.Run(sut.Cmd{Bin: env.Bin, Args: args, Stdin: in.stdin, Dir: root, Timeout: 20 * time.Second})
-		v.Counts["executions"]++
-		if r.Class() == sut.ClassTimeout {
-			// run it once more with a generous limit before calling it a hang
-			r = sut.Run(sut.Cmd{Bin: env.Bin, Args: args, Stdin: in.stdin, Dir: root, Timeout: 120 * time.Second})
+	bins := []string{env.Bin}
+	if env.Thorough() && len(c.Input)%10 == 3 {
+		// a tenth of the thorough inputs also runs on a build with the race detector (which implies checkptr)
+		if rb, err := env.Variant(sut.BuildOpts{Tags: "verif", Race: true}); err == nil {
+			bins = append(bins, rb)
+			v.Features = append(v.Features, "race-build")
+		} else {
+			v.Counts["race_build_unavailable"]++
+		}
+	}
+	for _, bin := range bins {
+		for _, in := range invs {
+			args := append([]string{"-d", root}, in.args...)
+			r := sut.Run(sut.Cmd{Bin: bin, Args: args, Stdin: in.stdin, Dir: root, Timeout: 20 * time.Second})
+			v.Counts["executions"]++
 			if r.Class() == sut.ClassTimeout {
-				return core.Viol("hang", "%v does not terminate within 120 s\ninput=%s\nstderr-tail=%s", in.args, core.Q(c.Input), core.Q(tail(r.Stderr, 12)))
+				// run it once more with a generous limit before calling it a hang
+				r = sut.Run(sut.Cmd{Bin: bin, Args: args, Stdin: in.stdin, Dir: root, Timeout: 120 * time.Second})
+				if r.Class() == sut.ClassTimeout {
+					return core.Viol("hang", "%v does not terminate within 120 s\ninput=%s\nstderr-tail=%s", in.args, core.Q(c.Input), core.Q(tail(r.Stderr, 12)))
+				}
+				v.Counts["slow_but_terminated"]++
 			}
-			v.Counts["slow_but_terminated"]++
-		}
-		if r.Class() == sut.ClassFault {
-			return core.Viol("runtime-fault:"+faultKind(string(r.Stderr)), "%v died from a runtime fault (exit %d %s)\ninput=%s\nstderr-tail=%s", in.args, r.Exit, r.Signal, core.Q(c.Input), core.Q(tail(r.Stderr, 14)))
-		}
-		switch r.Class() {
-		case sut.ClassOK:
-			v.Counts["exit_ok"]++
-		case sut.ClassDiagnostic:
-			v.Counts["deliberate_diagnostic"]++
-		default:
-			v.Counts["error_exit"]++
+			if r.Class() == sut.ClassFault {
+				return core.Viol("runtime-fault:"+faultKind(string(r.Stderr)), "%v died from a runtime fault (exit %d %s)\ninput=%s\nstderr-tail=%s", in.args, r.Exit, r.Signal, core.Q(c.Input), core.Q(tail(r.Stderr, 14)))
+			}
+			switch r.Class() {
+			case sut.ClassOK:
+				v.Counts["exit_ok"]++
+			case sut.ClassDiagnostic:
+				v.Counts["deliberate_diagnostic"]++
+			default:
+				v.Counts["error_exit"]++
+			}
 		}
 	}
 	return v
